@@ -114,6 +114,50 @@ fn server_emit(world: &mut World) {
     }
 }
 
+// ---- custom rule functions (`Cfg::custom_fns`): a variable-length encoding of `A` and a second, different one used by
+// the overlapping rule. A client that decodes with the wrong function set, or a size computed from anything but the
+// bytes actually written, shows up as a wrong value or a decode error.
+use bevy_replicon::bytes::{Buf, Bytes};
+use bevy_replicon::shared::replication::replication_registry::{
+    ctx::{SerializeCtx, WriteCtx},
+    rule_fns::{DeserializeFn, RuleFns},
+};
+
+fn ser_a(_: &SerializeCtx, a: &A, out: &mut Vec<u8>) -> Result<()> {
+    out.extend_from_slice(&a.0.to_le_bytes());
+    for _ in 0..(a.0 % 4) {
+        out.push(0xA5);
+    }
+    Ok(())
+}
+fn de_a(_: &mut WriteCtx, m: &mut Bytes) -> Result<A> {
+    if m.remaining() < 4 {
+        return Err("A: short".into());
+    }
+    let v = m.get_u32_le();
+    let pad = (v % 4) as usize;
+    if m.remaining() < pad || m.chunk()[..pad].iter().any(|b| *b != 0xA5) {
+        return Err("A: padding".into());
+    }
+    m.advance(pad);
+    Ok(A(v))
+}
+fn de_a_in_place(de: DeserializeFn<A>, ctx: &mut WriteCtx, a: &mut A, m: &mut Bytes) -> Result<()> {
+    a.0 = (de)(ctx, m)?.0;
+    Ok(())
+}
+fn ser_a2(_: &SerializeCtx, a: &A, out: &mut Vec<u8>) -> Result<()> {
+    out.push(0x5A);
+    out.extend_from_slice(&a.0.to_be_bytes());
+    Ok(())
+}
+fn de_a2(_: &mut WriteCtx, m: &mut Bytes) -> Result<A> {
+    if m.remaining() < 5 || m.get_u8() != 0x5A {
+        return Err("A (overlapping rule): tag".into());
+    }
+    Ok(A(m.get_u32()))
+}
+
 pub fn vis_policy(cfg: &Cfg) -> VisibilityPolicy {
     match cfg.vis {
         0 => VisibilityPolicy::All,
@@ -143,13 +187,23 @@ pub fn make_app(cfg: &Cfg, mismatch: bool) -> App {
         }),
     ));
     app.insert_resource(TimeUpdateStrategy::ManualDuration(Duration::from_millis(10)));
-    app.replicate::<A>()
-        .replicate::<B>()
-        .replicate::<C>()
-        .replicate_once::<O>()
-        .replicate_periodic::<P>(cfg.period.max(1))
-        .replicate::<S>()
-        .replicate::<Z>()
+    if cfg.custom_fns == 0 {
+        app.replicate::<A>();
+    } else if cfg.custom_fns == 3 {
+        app.replicate_with_priority(5, RuleFns::new(ser_a, de_a).with_in_place(de_a_in_place));
+    } else {
+        app.replicate_with(RuleFns::new(ser_a, de_a).with_in_place(de_a_in_place));
+    }
+    app.replicate::<B>().replicate::<C>().replicate_once::<O>().replicate_periodic::<P>(cfg.period.max(1));
+    if cfg.custom_fns == 0 {
+        app.replicate::<S>();
+    } else {
+        app.replicate_with((RuleFns::<S>::default(), SendRate::EveryTick));
+    }
+    if cfg.custom_fns >= 2 {
+        app.replicate_with((RuleFns::new(ser_a2, de_a2), RuleFns::<S>::default()));
+    }
+    app.replicate::<Z>()
         .replicate::<R>()
         .replicate::<ChildOf>();
     if cfg.bundle {
